@@ -166,7 +166,7 @@ C05_RejectNoChange(k) == (ln(k).ev = "Ack" /\ ln(k).res # "ok") => Unchanged(k)
 C06_OnlyRelayers(k) == (ln(k).ev \in {"UpdateClient", "Recv"} /\ ln(k).res = "ok") => ln(k).registered
 C06_AckRelayerField(k) == (ln(k).ev = "Recv" /\ ln(k).res = "ok") => ln(k).wrote.relayer_ok
 C06_RejectNoChange(k) == (ln(k).ev \in {"UpdateClient", "Recv"} /\ ln(k).res # "ok") => Unchanged(k)
-C06_ClientsOnlyByUpdate(k) == \A c \in Chains : clients'[c] # clients[c] => (ln(k).ev = "UpdateClient" /\ ln(k).res = "ok" /\ ActChain(k) = c)
+C06_ClientsOnlyByUpdate(k) == \A c \in Chains : clients'[c] # clients[c] => (ln(k).ev \in {"UpdateClient", "Retoggle"} /\ ln(k).res = "ok" /\ ActChain(k) = c)
 
 Judge(k) ==
   (* state invariants of XIBC.tla on the real post-state *)
@@ -220,6 +220,7 @@ C_Step(k) ==
     [] ln(k).ev = "UpdateClient" ->
           /\ UpdateEff(c, a.counter, a.height, a.signer)
           /\ ln(k).res = Res(UpdateOK(c, a.counter, a.height, a.signer))
+    [] ln(k).ev = "Retoggle" -> RetoggleEff(c, a.counter) /\ ln(k).res = "ok"
     [] ln(k).ev = "Recv" ->
           /\ RecvEff(c, Base(k), a.alt, a.ph, (IF a.proof = "ok" THEN "ok" ELSE "bad"), a.signer)
           /\ ln(k).res = Res(RecvAccept(c, Decoded(Base(k), a.alt), a.ph, (IF a.proof = "ok" THEN "ok" ELSE "bad"), a.signer))
